@@ -977,6 +977,11 @@ def search(seed, tier):
                         import_lock['example'] = {'call': short(d), 'threads': req['nthreads'], 'traceback': tb}
                     continue
                 site = 'c13:threads:%s.%s' % (d['module'], d['function'])
+                if o[0] == 'err' and o[1] in ('ModuleNotFoundError', 'ImportError', '_DeadlockError'):
+                    # the import machinery itself failed during a concurrent first import (function-level
+                    # `from stdnum import numdb`, get_cc_module's __import__): one root cause, whichever
+                    # function happened to trigger the import in this run
+                    site = 'c13:threads:concurrent-first-import'
                 if poisoned and (d['module'] in ENTRY_MODULES or d['module'].endswith('.iban')):
                     site = SITE_GETCC      # consequence of the poisoned cache reported above
                 if d['module'] == 'stdnum.util' and d['function'] == 'get_cc_module' and o == ['ok', 'null']:
